@@ -337,3 +337,15 @@ def finish(ctx, failing, corr_breaks, coverage, assumptions):
     coverage['known_findings_hit'] = sorted(known)
     write_evidence(ctx, coverage, assumptions, nviol)
     return rc
+
+
+def cstr(s):
+    """Coq string literal (byte string; the generators only emit ASCII)."""
+    return '"' + s.replace('"', '""') + '"'
+
+
+def parse_verdict_list(out, expected_len=None):
+    v = parse_nat_list(out)
+    if expected_len is not None and len(v) != expected_len:
+        raise RuntimeError('verdict count mismatch: %d != %d' % (len(v), expected_len))
+    return v
